@@ -23,11 +23,25 @@ def cond_key(b, c):
     """(shape key, detail): paths are matched by the shape of their conditions; the compared quantity / literal is checked separately"""
     if c[0] == "cmp" and c[1] in ("==", "!=", "<", "<=", ">", ">=") and is_const(c[3]) and isinstance(c[3][1], (int, float)) and not isinstance(c[3][1], bool):
         try:
-            return ("num", c[1], c[3][1]), repr(b.nf(c[2]))
+            r = b.nf(c[2])
+            lit = c[3][1]
+            # a constant offset on the tested quantity moves to the literal: `n + 1 == 1` is `n == 0` (nodes against segments)
+            from ..nf import ONE, R
+            if r.den == ONE and r.constval() != 0 and not r.is_const():
+                k = r.constval()
+                r = r - R.c(b.sp, k)
+                lit = lit - k
+                lit = int(lit) if lit == int(lit) else float(lit)
+            return ("num", c[1], lit), repr(r)
         except Undecided:
             pass
     if c[0] == "cmp" and c[1] in ("==", "!=") and is_const(c[3]) and isinstance(c[3][1], str):
         return ("str", c[1], canon(c[2]) if c[2][0] != "param" else ("param", b.synonyms.get(c[2][1], c[2][1])), c[3][1]), None
+    if c[0] == "cmp" and c[1] in ("in", "notin") and c[3][0] in ("list", "tuple", "set") and all(is_const(x) for x in c[3][1]):
+        # membership in a literal collection: the kind of collection and the order of its members do not matter
+        members = ("tuple", tuple(sorted(c[3][1], key=repr)))
+        lhs = ("param", b.synonyms.get(c[2][1], c[2][1])) if c[2][0] == "param" else c[2]
+        return ("term", canon(("cmp", c[1], lhs, members))), None
     if c[0] == "cmp" and c[2][0] == "param":
         return ("term", canon(("cmp", c[1], ("param", b.synonyms.get(c[2][1], c[2][1])), c[3]))), None
     return ("term", canon(c)), None
@@ -95,6 +109,15 @@ def compare_paths(ctx, rule, qn, specname, syn=None, env_of=None, what=""):
                 for kk in key:
                     if details[kk] is not None and d[kk] is not None and details[kk] != d[kk]:
                         clash = "the branch condition tests %s where the documentation tests %s" % (details[kk], d[kk])
+        if not clash and not matches:
+            # the same quantity compared with another number than the documentation compares it with
+            for kk in key:
+                if kk[0][0] != "num" or details.get(kk) is None:
+                    continue
+                for k, d, _sp in spaths:
+                    for k2 in k:
+                        if k2[0][0] == "num" and k2[0][1] == kk[0][1] and d.get(k2) == details[kk] and k2[0][2] != kk[0][2] and (key - {kk}) <= (k - {k2}):
+                            clash = "the branch tests %s %s %s where the documentation tests %s %s %s" % (details[kk], kk[0][1], kk[0][2], d[k2], k2[0][1], k2[0][2])
         if clash:
             ctx.add(rule, "%s|formula|%s" % (qn, tag), "VIOLATED", "%s: %s" % (qn.rsplit(".", 1)[1], clash), fn=qn, line=p.line)
             n += 1
@@ -104,8 +127,14 @@ def compare_paths(ctx, rule, qn, specname, syn=None, env_of=None, what=""):
             continue
         verdict = True
         detail = ""
+        def with_equalities(path):
+            """the returned value with every quantity the path has decided to EQUAL a number replaced by that number (`n == 0` held, so n is 0)"""
+            from ..terms import subst
+            eq = {c[2]: c[3] for c, v_ in path.conds if v_ and c[0] == "cmp" and c[1] == "==" and is_const(c[3]) and isinstance(c[3][1], (int, float)) and not isinstance(c[3][1], bool)}
+            return subst(path.value, eq) if eq else path.value
+        decided_eq = any(kk[0][0] == "num" and kk[0][1] == "==" and kk[1] for kk in key)      # only what this path itself decided may be used
         for sp_ in matches:
-            gv, wv = p.value, sp_.value
+            gv, wv = (with_equalities(p), with_equalities(sp_)) if decided_eq else (p.value, sp_.value)
             gs = list(gv[1]) if gv[0] == "tuple" else [gv]
             ws = list(wv[1]) if wv[0] == "tuple" else [wv]
             if len(gs) != len(ws):
